@@ -539,5 +539,7 @@ def tree_update(tree, update, types = (dict, Dict, dictattr), ignore = None):
         updated tree.
 
     """
+    if isinstance(update, dict) and type(update) not in as_list(types): ## the update itself is a tree whatever its class, only what is inside it can be a leaf
+        update = dict(update)
     items = tree_items(update, types)
     return items_to_tree(items, tree, ignore = ignore, types = types)
